@@ -86,6 +86,10 @@ namespace ip {
 	{
 		boost::system::error_code ec;
 
+		// give up an outstanding connect while the channel and the binding it
+		// was made from are still known
+		abort_connect();
+
 		m_channel.reset();
 
 		if (m_bound_to != ip::tcp::endpoint())
